@@ -3,6 +3,7 @@
 //! usage: vcheck <Cnn> [--tier quick|thorough] [--seed N] [--replay FILE] [--root DIR]
 //! exit: 0 held on everything observed (KNOWN-FINDING lines allowed), 1 violation, 2 inconclusive.
 mod api;
+mod history;
 mod log;
 mod model;
 mod monitor;
